@@ -55,7 +55,7 @@ def child_run(m, ops, proto):
 
 def run_case(rs, ctx):
     l, p = gen.ALL_COMBOS[ctx.index % 48]
-    point = POINTS[(ctx.index // 48) % 6]
+    point = POINTS[(ctx.index // 48 + ctx.index % 48) % 6]
     method = METHODS[(ctx.index // 7) % 6]
     if method == "subprocess" and ctx.index % 3:
         method = "pickle%d" % (2 + ctx.index % 4)
